@@ -44,14 +44,20 @@ def key_facts(eng, X):
         rel = None
         ln = None
         if len(blk) == 1:
+            # the key block sits directly in front of the block that is XORed with this key: found through the XOR
+            # loops that use this digest (base = data index - key index), not through the loop counter
             start, ln = blk[0][2], blk[0][3]
-            rel = start - c["item"].lin.scale(16)
-            if not eng.ent(c["state"], c_eq(rel, Lin.const(-16))):
-                rel = repr(rel)
+            linked = []
+            for x in X.xor_loops():
+                if x["xor"][3] == c["md5"][1] and any(e is c["md5"] for e in x["state"].events()):
+                    base = x["xor"][2] - x["xor"][4]
+                    linked.append(eng.ent(x["state"], c_eq(base, start + 16)))
+            if linked:
+                rel = -16 if all(linked) else "key block is not the block in front of the block XORed with it"
             else:
-                rel = -16
+                rel = "unlinked"      # the digest is stored and used elsewhere: not decided here
         chain.append({"range": c.get("range"), "shape": shape, "rel": rel, "len": ln, "back": c["back"], "order": c["order"], "item": c["item"], "lid": c["lid"], "done": c["done"],
-                      "buf": blk[0][1] if blk else None, "did": c["md5"][1], "state": c["state"]})
+                      "buf": blk[0][1] if blk else None, "did": c["md5"][1], "state": c["state"], "loop": c.get("loop"), "start": c.get("start")})
     return first, chain
 
 
@@ -61,21 +67,26 @@ def xor_facts(eng, X, chain):
         st = x["state"]
         _, dest, di, dig, si = x["xor"][:5]
         j = x["j"].lin
-        base = di - j
+        base = di - si
         kind = None
         same_buf = False
-        if eng.ent(st, c_eq(base, Lin.const(0))):
-            kind = "first"
-        else:
-            for c in chain:
-                if eng.ent(st, c_eq(base, c["item"].lin.scale(16))):
-                    kind = "chain"
-                    if c["buf"] == dest:
-                        same_buf = True
-        lo, hi = eng.bounds(st, j)
+        known = False
         lastmd5 = [e for e in st.events() if e[0] == "md5"]
+        mine = [e for e in lastmd5 if e[1] == dig]
+        if mine:
+            known = True
+            nk = norm_key(eng, mine[-1][2])
+            blk = [p for p in nk if p[0] == "block"]
+            if nk and nk[0][0] == "type16":
+                if eng.ent(st, c_eq(base, Lin.const(0))):
+                    kind = "first"
+            elif len(blk) == 1:
+                if eng.ent(st, c_eq(base, blk[0][2] + 16)):
+                    kind = "chain"
+                    same_buf = blk[0][1] == dest
+        lo, hi = eng.bounds(st, j)
         out.append({"range": x.get("range"), "state": st, "kind": kind, "dest": dest, "aligned": si == j, "j": (lo, hi), "order": x["order"], "lid": x["lid"], "done": x["done"],
-                    "digest_is_latest": bool(lastmd5) and lastmd5[-1][1] == dig, "base": repr(base), "same_buf": same_buf})
+                    "digest_is_latest": bool(lastmd5) and lastmd5[-1][1] == dig, "base": repr(base), "same_buf": same_buf, "known_digest": known})
     return out
 
 
@@ -92,41 +103,58 @@ def run_config(chk, config):
               "the first MD5 input differs: hide %s, reveal %s" % (sorted(hf), sorted(rf)),
               {"rule": "first key = attribute type(2) | secret | random vector on both sides", "hide": sorted(hf), "reveal": sorted(rf)},
               {"obligation": "first key input composition agrees", "shape": sorted(hf)})
-    hshapes = set((c["shape"], c["rel"], repr(c["len"])) for c in hc)
-    rshapes = set((c["shape"], c["rel"], repr(c["len"])) for c in rc)
-    want_chain = {((("arg", "secret"), ("block",)), -16, "16")}
-    chk.oblig(hshapes == rshapes == want_chain and bool(hc) and bool(rc), "chain-key | hide vs reveal",
-              "the chain MD5 input differs: hide %s, reveal %s (expected secret | buffer[16(i-1), 16i))" % (sorted(hshapes, key=str), sorted(rshapes, key=str)),
-              {"rule": "key of block i = secret | block i-1, same index expression on both sides"},
-              {"obligation": "chain key input composition and block index agree", "shape": sorted(hshapes, key=str)})
+    hshapes = set((c["shape"], repr(c["len"])) for c in hc)
+    rshapes = set((c["shape"], repr(c["len"])) for c in rc)
+    want_chain = {((("arg", "secret"), ("block",)), "16")}
+    badrel = sorted(set("%s: %s" % (n_, c["rel"]) for n_, cs in (("hide", hc), ("reveal", rc)) for c in cs if c["rel"] not in (-16, "unlinked")))
+    for n_, cs in (("hide", hc), ("reveal", rc)):
+        if any(c["rel"] == "unlinked" for c in cs):
+            chk.notes.append("undecided clause (C11): %s stores its chain digests and uses them elsewhere; the position of the key block relative to the XORed block is not decided" % n_)
+    chk.oblig(hshapes == rshapes == want_chain and bool(hc) and bool(rc) and not badrel, "chain-key | hide vs reveal",
+              "the chain MD5 input differs: hide %s, reveal %s (expected secret | the 16-octet block in front of the block being XORed) %s" % (sorted(hshapes, key=str), sorted(rshapes, key=str), badrel[:2]),
+              {"rule": "key of block i = secret | block i-1, same composition on both sides", "problems": badrel},
+              {"obligation": "chain key input composition and block position agree", "shape": sorted(hshapes, key=str)})
     hx = xor_facts(engh, H, hc)
     rx = xor_facts(engr, R, rc)
     for name, xs in (("hide", hx), ("reveal", rx)):
-        bad = [x for x in xs if not (x["kind"] in ("first", "chain") and x["aligned"] and x["j"] == (0, 15) and x["digest_is_latest"])]
-        kinds = set(x["kind"] for x in xs)
-        chk.oblig(not bad and kinds == {"first", "chain"}, "xor | %s" % name,
-                  "%s: XOR is not buffer[16 i + j] ^= digest_of_block_i[j], j in 0..16: %s" % (name, [(x["kind"], x["base"], x["aligned"], x["j"]) for x in bad][:2]),
-                  {"rule": "data index - block start = key index, j over exactly 0..16, digest of the key just computed"},
+        unk = [x for x in xs if not x["known_digest"]]
+        if unk:
+            chk.notes.append("undecided clause (C11): %s XORs with digests whose computation is not on the same path (stored keys); XOR alignment of those loops is not decided" % name)
+        kn = [x for x in xs if x["known_digest"]]
+        bad = [x for x in kn if not (x["kind"] in ("first", "chain") and x["aligned"] and x["j"] == (0, 15))]
+        kinds = set(x["kind"] for x in kn)
+        need = {"first", "chain"} if not unk else {"first"}
+        chk.oblig(not bad and kinds >= need, "xor | %s" % name,
+                  "%s: XOR is not buffer[block start + j] ^= digest_of_that_block[j], j in 0..16: %s" % (name, [(x["kind"], x["base"], x["aligned"], x["j"]) for x in bad][:2]),
+                  {"rule": "data index - block start = key index, j over exactly 0..16, digest of that block's key"},
                   {"obligation": "%s: XOR alignment in first-block and chain loops" % name, "loops": len(xs)})
     # chain dependence
     def dep(name, chain, xs, want_back):
         probs = []
+        firsts = [x for x in xs if x["kind"] == "first"]
+        first_lids = set(x["lid"] for x in firsts)
+        chain_lids = set(c["lid"] for c in chain)
         for c in chain:
+            # keys computed before any block of the buffer is XORed are keys over the original buffer
+            early = bool(xs) and all(c["lid"] in x["done"] for x in xs) and not any(set(x["lid"] for x in xs) & set(c["done"]))
+            if early:
+                if want_back is False:
+                    probs.append("the chain keys are computed before the blocks are encrypted (keys from plaintext)")
+                continue
+            if c["back"] is None:
+                chk.notes.append("undecided clause (C11): %s walk direction of the chain not understood" % name)
+                continue
             if c["back"] != want_back:
                 probs.append("blocks are walked %s" % ("downwards" if c["back"] else "upwards"))
-            if c["rel"] != -16:
-                probs.append("key block is not block i-1")
-        firsts = [x for x in xs if x["kind"] == "first"]
+            if firsts:
+                if want_back is False and not (first_lids & set(c["done"])):
+                    probs.append("block 0 is not encrypted before the chain starts")
+                if want_back is True and (first_lids & set(c["done"])):
+                    probs.append("block 0 is decrypted before the chain has finished")
         if firsts and chain:
-            first_lids = set(x["lid"] for x in firsts)
-            chain_lids = set(c["lid"] for c in chain)
-            if want_back is False and not all(first_lids & set(c["done"]) for c in chain):
-                probs.append("block 0 is not encrypted before the chain starts")
             if want_back is False and any(chain_lids & set(x["done"]) for x in firsts):
                 probs.append("block 0 is encrypted after the chain")
-            if want_back is True and any(first_lids & set(c["done"]) for c in chain):
-                probs.append("block 0 is decrypted before the chain has finished")
-        else:
+        elif not (firsts or [x for x in xs if not x["known_digest"]]) or not chain:
             probs.append("no first-block / chain loop found")
         # the key block and the XORed block live in the same buffer
         for x in xs:
@@ -139,15 +167,20 @@ def run_config(chk, config):
               {"obligation": "hide: key block i-1 is in state 'xored' (ascending walk, block 0 first)"})
     pr = dep("reveal", rc, rx, True)
     chk.oblig(not pr, "dependence | reveal", "reveal: the chain key is not the previous CIPHERTEXT block: %s" % pr,
-              {"rule": "descending walk: block i-1 has not been XORed yet when it keys block i; block 0 last", "problems": pr},
-              {"obligation": "reveal: key block i-1 is in state 'original' (descending walk, block 0 last)"})
+              {"rule": "descending walk (or keys taken before any block is XORed): block i-1 still holds ciphertext when it keys block i; block 0 last", "problems": pr},
+              {"obligation": "reveal: key block i-1 is in state 'original'"})
     # every block is processed: chain over blocks 1..n-1 with n = |buffer|/16, XOR over j = 0..16
-    from hiding import coverage_facts
+    from hiding import coverage_semantic
     for name, eng_, X_, ch_, xs_ in (("hide", engh, H, hc, hx), ("reveal", engr, R, rc, rx)):
-        cp = coverage_facts(eng_, X_, ch_, xs_)
+        cp, und = coverage_semantic(eng_, X_, ch_)
+        for u in und:
+            chk.notes.append("undecided clause (C11): %s %s" % (name, u))
+        for x in xs_:
+            if x["j"] != (0, 15):
+                cp.append("XOR loop covers key octets %s, not 0..15" % (x["j"],))
         chk.oblig(not cp, "coverage | %s" % name, "%s does not process every block/octet: %s" % (name, cp[:2]),
-                  {"rule": "chain over blocks 1..n-1 (n = |buffer|/16), XOR over all 16 octets of a block", "problems": cp},
-                  {"obligation": "%s: chain loop covers blocks 1..n-1, XOR loops cover 16 octets" % name})
+                  {"rule": "the blocks keyed by the chain are exactly blocks 1..n-1 (n = |buffer|/16); XOR over all 16 octets of a block", "problems": cp},
+                  {"obligation": "%s: chain covers blocks 1..n-1, XOR loops cover 16 octets" % name})
     # plaintext shape at the first MD5 of hide
     from hiding import plaintext_facts
     dests = set(x["dest"] for x in hx)
